@@ -74,21 +74,42 @@ def run(db, chk) -> None:
     ref = f"{CA}:CommunicationAnalysis.get_comm_comp_overlap.get_comm_comp_overlap_value"
     fn = m.func("CommunicationAnalysis.get_comm_comp_overlap.get_comm_comp_overlap_value")
     where = m.loc(fn)
+    per_path = []
+
+    class PathHook(MergeHook):
+        pass
+
+    hook = PathHook()
     I = Interp(db, call_hook=hook)
-    runs = I.explore(ref, lambda I: {"trace_df": Frame(TR)}, lambda I: {"sym_table": T.P("sym_table")})
+    runs = I.explore(ref, lambda I: (hook.reset(), {"trace_df": Frame(TR)})[1], lambda I: {"sym_table": T.P("sym_table")})
     chk.analysed_add("functions", ref)
-    runs = [r for r in runs if r.raised is None]
-    if len(runs) != 1 or len(hook.calls) != 2:
-        chk.ob("C07.R1-sweep", "per-rank function: one path, two merges", None, where, found=f"paths={len(runs)} merges={len(hook.calls)}")
+    # the hook is reset at the start of every path; collect the merge calls per path from the event log instead
+    good = [r for r in runs if r.raised is None]
+    if not good or len(good) > 8:
+        chk.ob("C07.R1-sweep", "per-rank function: analysable number of paths", None, where, found=len(good))
         return
-    ratio = to_term(runs[0].ret)
+    for r in good:
+        calls = [{"arg_ctx": e["arg_ctx"], "ts": e["ts"], "dur": e["dur"], "line": e["line"], "frame": merged_frame_of(e["arg_ctx"], e["ts"], e["dur"])} for e in r.events if e["kind"] == "merge-call"]
+        _one_path(db, chk, where, TR, r, calls, (" [when " + T.show(r.cond())[:60] + "]") if r.path else "")
+    _rest(db, chk, m, TR)
+
+
+def _one_path(db, chk, where, TR, run_, calls, ptag):
+    class _H:
+        pass
+    hook = _H()
+    hook.calls = calls
+    if len(calls) != 2:
+        chk.ob("C07.R1-sweep", f"two merged operands{ptag}", False if len(calls) > 2 else None, where, found=len(calls), accepted=2, why="every path must sweep exactly the merged communication and the merged computation kernels")
+        return
+    ratio = to_term(run_.ret)
     kt = KT.kernel_type_term(db, ("getitem", T.P("sym_table"), T.col(TR, "name")))
     by_type = {}
     dev = None
     for c in hook.calls:
         rows = c["arg_ctx"][1]
         ok_cols = c["arg_ctx"][0] == TR and c["ts"] == T.col(TR, "ts") and c["dur"] == T.col(TR, "dur")
-        chk.ob("C07.R1-sweep", f"merge input (line {c['line']}) = rows of the trace frame with their own ts/dur", ok_cols, where,
+        chk.ob("C07.R1-sweep", f"{ptag}merge input (line {c['line']}) = rows of the trace frame with their own ts/dur", ok_cols, where,
                found=[T._ctx(c["arg_ctx"])[:200]], accepted="rows of the trace frame")
         for ty in ("COMMUNICATION", "COMPUTATION"):
             tyeq = T.cmp("==", kt, T.C(ty))
@@ -135,6 +156,9 @@ def run(db, chk) -> None:
     check_term(chk, "C07.R1-sweep", "ratio = sum(next_time - time over rows with running == a+b) / measure of merged communication kernels", where, ratio, accepted,
                "reference: time-sorted +-marker sweep with a fresh 0..n index before cumsum/shift; denominator must be the MERGED communication time "
                "(raw durations double-count concurrent communication kernels)")
+
+
+def _rest(db, chk, m, TR):
     chk.floor("C07.R1-sweep", 8)
 
     # ---------------------------------------------------------------- outer plumbing
@@ -164,5 +188,9 @@ def run(db, chk) -> None:
     if len(cs) != 1:
         raise AnalysisError("facade delegation not found")
     bnd = H.bind_call(f3, cs[0])
+
+    for _p, _src, _v in H.rebinds_of_params(fac, ["visualize"]):
+        chk.ob("C07.R-facade-integrity", f"facade forwards parameter {_p} unmodified", _v == "default-if-none", ta.loc(fac), found=_src, accepted="no re-binding, or `if p is None: p = <default>`",
+               why="`p = p or default` replaces legitimate falsy values (a threshold of 0, an empty selection) by the default")
     chk.ob("C07.R3-facade", "facade forwards trace and visualize", H.is_self_attr(bnd.get("t"), "t") and H.name_id(bnd.get("visualize")) == "visualize",
            ta.loc(cs[0]), found={k: ast.unparse(v) for k, v in bnd.items()}, accepted={"t": "self.t", "visualize": "visualize"})
